@@ -78,10 +78,20 @@ fn once(c: &Case) -> Verdict {
         }
         "AdjacencyList::degree_sequence" => {
             let g = AdjacencyList::build(&c.a);
-            let m = reprs::model_of(&c.a);
             let got: Vec<usize> = guarded(|| g.degree_sequence().collect()).map_err(|p| format!("{name} panicked: {p}"))?;
-            let want: Vec<usize> = (0..m.order()).map(|v| m.indeg(v) + m.outdeg(v)).collect();
-            ensure!(got == want, "{name} = {got:?}, definition {want:?}");
+            // definition: indegree + outdegree, counted in one pass over the arc list
+            let mut want = vec![0_usize; c.a.order];
+            for &(u, v) in &c.a.arcs {
+                want[u] += 1;
+                want[v] += 1;
+            }
+            if got != want {
+                let bad: Vec<(usize, usize, usize)> = (0..want.len().min(got.len())).filter(|&i| got[i] != want[i]).take(8).map(|i| (i, got[i], want[i])).collect();
+                if want.len() > 200 {
+                    return Err(format!("{name} differs from the definition at {} vertices of {}; first (vertex, got, want): {bad:?}; lengths {} vs {}", (0..want.len().min(got.len())).filter(|&i| got[i] != want[i]).count(), want.len(), got.len(), want.len()));
+                }
+                return Err(format!("{name} = {got:?}, definition {want:?}"));
+            }
             Ok(())
         }
         "AdjacencyList::is_semicomplete" => {
@@ -227,10 +237,49 @@ impl Prop for C17 {
                 workers: 16,
                 build: Build::Normal,
             },
+            Leg {
+                name: "huge-dense",
+                kind: LegKind::Random {
+                    cases: tier.pick(6, 50),
+                },
+                workers: 16,
+                build: Build::Normal,
+            },
         ]
     }
 
     fn strategy(leg: &str, tier: Tier) -> BoxedStrategy<Case> {
+        if leg == "huge-dense" {
+            // is_semicomplete on dense near misses (the early-exit flag is shared by the
+            // workers) and degree_sequence on hub digraphs with tens of thousands of rows
+            let empty = MapDg { vertices: vec![0], arcs: vec![] };
+            let e2 = empty.clone();
+            return prop_oneof![
+                3 => (gen::dense_near_miss(), 2..=16_usize).prop_map(move |((a, _), cpus)| Case {
+                    op: 3,
+                    a,
+                    b: Dg { order: 1, arcs: vec![] },
+                    ma: empty.clone(),
+                    mb: empty.clone(),
+                    seed: 0,
+                    p: 0.0,
+                    cpus,
+                    reps: 4,
+                }),
+                1 => (proptest::sample::select(vec![4100_usize, 8200, 20_000, 40_000]), 2..=16_usize, 8..=24_usize).prop_map(move |(n, cpus, hubs)| Case {
+                    op: 2,
+                    a: Dg { order: n, arcs: (hubs..n).flat_map(|v| (0..hubs).map(move |h| (v, h))).collect() },
+                    b: Dg { order: 1, arcs: vec![] },
+                    ma: e2.clone(),
+                    mb: e2.clone(),
+                    seed: 0,
+                    p: 0.0,
+                    cpus,
+                    reps: 3,
+                }),
+            ]
+            .boxed();
+        }
         if leg == "huge" {
             // hundreds to thousands of rows per operation (complete() capped at 700 rows)
             return (0..OPS.len() as u8, gen::huge_dg(), gen::huge_dg(), 1..=16_usize, any::<u64>())
